@@ -171,6 +171,10 @@ class RealWorld:
     def path(self, loc):
         d = os.path.join(self.root, loc)
         os.makedirs(d, exist_ok=True)
+        # the same directory under alternating spellings (x/A, x/./A, x/A/../A, x//A): a location is a place on disk, not a string
+        self._spell = getattr(self, "_spell", 0) + 1
+        k = self._spell % 4
+        d = [d, os.path.join(self.root, ".", loc), os.path.join(self.root, loc, "..", loc), self.root + os.sep + os.sep + loc][k]
         # locations whose name starts with "pre" are used WITHOUT a trailing slash (file-name prefix `x_`)
         return os.path.join(d, "x_") if loc.startswith("pre") else d + os.sep
 
